@@ -146,14 +146,22 @@ class ListIter(Iter):
         segs = self.lst.segs
         exact = self.spec.exact_index if hasattr(self.spec, 'exact_index') \
             else False
+        off = 0
         for k, sg in enumerate(segs):
             s1 = st.clone() if k < len(segs) - 1 else st
             s1.trace.append('seg%d' % k)
+            ln = 1 if isinstance(sg, Single) else sg.ln
+            # the element at index i lies in segment k
+            s1.assume(And(zint(off) <= zint(i),
+                          zint(i) < zint(off) + zint(ln)))
+            off = off + ln
             if isinstance(sg, Single):
                 e = _live(s1, st, sg.obj)
             else:
                 s1.assume(zint(sg.ln) > 0)
                 e = sg.mk(s1)
+                if sg.indexed:
+                    sg.indexed(s1, zint(i), e)
             if self.enum_start is not None:
                 e = (zint(i) + zint(self.enum_start), e)
             self.bind(s1, e)
